@@ -8,12 +8,18 @@ inputs given to the real functions of horizontal_interpolation / vertical_interp
 an independent geometric oracle (cells = arcs between circular mid-points, overlaps by
 brute-force unwrapping).
 
-Domain (see the report / DESIGN section 7): integral conservation in longitude needs
-`width(source cell) + width(target cell) <= period/2` for every pair (both grids with at least
-4 equispaced longitudes); `_periodic_overlap` under-estimates the overlap otherwise although its
-stated precondition (no cell wider than period/2) holds.  The witness (3 -> 4 longitudes) is
-evaluated on every run and recorded in the evidence notes, not reported as a violation.
+Domain: integral conservation in longitude is proved (lonWeights_conservative_of_offset_points)
+for strictly increasing longitudes spanning less than a period, anywhere on the real line (any
+`longitude_offset`: `% period` then rotates the vector), whose largest circular gaps satisfy
+`gap_s + gap_t <= period/2`.  It is asserted on the real code wherever
+`width(source cell) + width(target cell) <= period/2` for every pair of cells (a superset).
+Outside the theorem's domain (e.g. 3 -> 4 equispaced longitudes) `_periodic_overlap`
+under-estimates the overlap although its stated precondition (no cell wider than period/2) holds:
+the real code does NOT conserve there.  That is reported through `ctx.fail` with the structural
+key `lon-conservation-wide-cells` (a recorded finding), from a fixed witness evaluated on every run
+and from every generated pair outside the domain on which conservation actually fails.
 """
+import os
 from fractions import Fraction
 
 import numpy as np
@@ -25,11 +31,13 @@ TWO_PI = 2 * np.pi
 HALF_PI = np.pi / 2
 ISCLOSE_TOL = 1e-3 + 1e-8          # jnp.isclose(x, 1, rtol=1e-3): atol + rtol*|1|
 SLIVER_KEY = 'skipna-false-sliver-overlap'
+WIDE_KEY = 'lon-conservation-wide-cells'
 EPS = 1e-12
 
 RULE = ('horizontal: grid pairs from spherical_harmonic.Grid with 4..24 longitudes, 1..16 latitudes, '
         'gauss / equiangular / equiangular_with_poles spacing, longitude offsets (0, random, negative, '
-        'beyond 2pi, 0.05% and 0.2% of a cell), coarser / finer / equal / non-nested, plus raw non-uniform '
+        'beyond one cell, beyond 2pi, the [-pi, pi) layout, 0.05% and 0.2% of a cell), coarser / finer / '
+        'equal / non-nested, 3 -> 4 and 4 -> 3 longitudes (outside the domain), plus raw non-uniform '
         'coordinate vectors (sizes 1,2,3 first); fields standard normal with NaN patterns (none, one cell, '
         '10%, a full row, all); vertical: random hybrid coefficient sets (1..12 layers, top at or above '
         'zero pressure), surface pressures 500..1100, sigma level sets from dinoutil.random_boundaries, raw '
@@ -73,6 +81,26 @@ def lin_gap(tb, sb):
   return np.minimum(tb[1:, None], sb[None, 1:]) - np.maximum(tb[:-1, None], sb[None, :-1])
 
 
+def cyc_gaps(p, period):
+  """Circular gaps of raw increasing points (no modulo): the differences and the wrap-around gap."""
+  return [b - a for a, b in zip(p[:-1], p[1:])] + [period - (p[-1] - p[0])]
+
+
+def theorem_applies(lon_s, lon_t, exact=False):
+  """Hypotheses of Dino.C16.lonWeights_conservative_of_offset_points on raw coordinate vectors:
+  >= 2 strictly increasing points spanning less than a period each, largest circular gaps adding
+  up to at most half a period.  `exact`: decided in rational arithmetic on the doubles."""
+  conv = Fraction if exact else float
+  per = conv(TWO_PI)
+  gmax = []
+  for p in (lon_s, lon_t):
+    p = [conv(float(v)) for v in p]
+    if len(p) < 2 or not all(b > a for a, b in zip(p[:-1], p[1:])) or not p[-1] - p[0] < per:
+      return False
+    gmax.append(max(cyc_gaps(p, per)))
+  return gmax[0] + gmax[1] <= per / 2
+
+
 class Geometry:
   """Oracle geometry of a (source, target) pair of lon/lat coordinate vectors."""
 
@@ -99,6 +127,8 @@ class Geometry:
                            max(g.max() for g in gaps) < TWO_PI / 2 * (1 - 1e-9) and
                            min(g.min() for g in gaps) > 0 and
                            self.wlon_s.max() + self.wlon_t.max() <= TWO_PI / 2 * (1 + 1e-12))
+    # domain of lonWeights_conservative_of_offset_points (condition on the largest circular gaps): a subset
+    self.thm_domain = theorem_applies(lon_s, lon_t)
     self.area_s = self.wlon_s[:, None] * self.wlat_s[None, :]
     self.area_t = self.wlon_t[:, None] * self.wlat_t[None, :]
 
@@ -127,7 +157,7 @@ def make_grid(sh, nlon, nlat, spacing, offset):
 SPACINGS = ['gauss', 'equiangular', 'equiangular_with_poles']
 
 
-def grid_pair_specs(rng, n, n_forced=9):
+def grid_pair_specs(rng, n, n_forced=12):
   """(source spec, target spec, tag); spec = (nlon, nlat, spacing, offset)."""
   forced = [
       # the recorded finding: 0.05 % of a cell (NaN not propagated), then 0.2 % (propagated)
@@ -139,6 +169,10 @@ def grid_pair_specs(rng, n, n_forced=9):
       ((4, 2, 'equiangular', 0.0), (8, 4, 'equiangular', 0.0), 'finer-nested'),
       ((6, 3, 'gauss', 0.3), (5, 4, 'equiangular', -0.2), 'non-nested'),
       ((4, 1, 'gauss', 0.0), (5, 1, 'equiangular', 1.0), 'one-latitude'),
+      # offset grids: `% period` rotates the longitude vector (first node negative / last node beyond 2pi)
+      ((8, 4, 'gauss', -0.05), (5, 4, 'equiangular', 0.0), 'offset-negative'),
+      ((8, 4, 'gauss', -np.pi), (5, 4, 'equiangular', -np.pi), 'offset-minus-pi-layout'),
+      ((5, 4, 'equiangular', 2.3 * TWO_PI / 5), (8, 4, 'gauss', -0.3), 'offset-beyond-one-cell'),
       # thorough tier only (n_forced below)
       ((12, 6, 'equiangular_with_poles', 6.5), (9, 7, 'gauss', 0.0), 'offset-beyond-2pi'),
       ((16, 8, 'gauss', 0.0), (16, 8, 'gauss', np.pi / 16), 'half-cell-offset'),
@@ -218,8 +252,10 @@ def run(ctx: common.Ctx):
   from dinosaur import sigma_coordinates as sc
   import dinoutil
 
-  ctx.lean('DinoProofs.Properties.C16', 'C16.txt',
-           extra_files=['DinoProofs/Lemmas/Regrid.lean', 'Dino/Regrid.lean'])
+  extra = ['DinoProofs/Lemmas/Regrid.lean', 'Dino/Regrid.lean']
+  if os.path.exists(os.path.join(common.LEAN, 'DinoProofs/Lemmas/RegridCyclic.lean')):
+    extra.append('DinoProofs/Lemmas/RegridCyclic.lean')
+  ctx.lean('DinoProofs.Properties.C16', 'C16.txt', extra_files=extra)
 
   rng = ctx.rng
   lines, checks = [], []
@@ -362,21 +398,24 @@ def run(ctx: common.Ctx):
             f'{fvec(f[:, i, j])}', 'regrid_hybrid_to_sigma', inp, out[:, i, j], 'vec')
 
   # ---- 5. the regridder objects: weights and __call__ with NaN patterns, both skipna modes
-  npairs = ctx.n(8, 100)          # quick: 7 forced pairs + 1 random pair
+  npairs = ctx.n(11, 100)         # quick: 10 forced pairs + 1 random pair
   pairs = []
-  for pi, (ss, ts, tag) in enumerate(grid_pair_specs(rng, npairs, ctx.n(7, 9))):
+  for pi, (ss, ts, tag) in enumerate(grid_pair_specs(rng, npairs, ctx.n(10, 12))):
     gs, gt = make_grid(sh, *ss), make_grid(sh, *ts)
     geo = Geometry(gs.longitudes, gs.latitudes, gt.longitudes, gt.latitudes)
     ctx.dist[f'pair:{tag}'] += 1
     ctx.dist[f'pair:lat:{ss[2]}->{ts[2]}'] += 1
     rel = 'finer' if ts[0] * ts[1] > ss[0] * ss[1] else 'coarser' if ts[0] * ts[1] < ss[0] * ss[1] else 'equal-size'
     ctx.dist[f'pair:{rel}'] += 1
-    # hypotheses of Dino.C16.lonWeights_conservative_of_points / latWeights_conservative on this pair
-    def max_gap(p):
-      return float(np.max(np.concatenate([np.diff(p), [TWO_PI - (p[-1] - p[0])]])))
+    # hypotheses of Dino.C16.lonWeights_conservative_of_(offset_)points / latWeights_conservative on this pair
     in_period = all(0 <= p[0] and p[-1] < TWO_PI for p in (gs.longitudes, gt.longitudes))
-    applies = in_period and max_gap(gs.longitudes) + max_gap(gt.longitudes) <= TWO_PI / 2
-    ctx.dist[f'hyp:lonWeights_conservative_of_points applies={applies}'] += 1
+    ctx.dist[f'hyp:lonWeights_conservative_of_points applies={in_period and geo.thm_domain}'] += 1
+    ctx.dist[f'hyp:lonWeights_conservative_of_offset_points applies={geo.thm_domain}'] += 1
+    rotated = [bool((np.diff(np.mod(p, TWO_PI)) < 0).any()) for p in (gs.longitudes, gt.longitudes)]
+    ctx.dist[f'pair:lon % period rotates source={rotated[0]} target={rotated[1]}'] += 1
+    ctx.obligation(f'theorem domain inside the probed domain for {ss}->{ts}', 'hypothesis',
+                   (not geo.thm_domain) or geo.lon_domain,
+                   'gap_s + gap_t <= period/2 implies width_s + width_t <= period/2 and gaps below period/2')
     lat_ok = all((np.diff(x) > 0).all() and x[0] >= -HALF_PI and x[-1] <= HALF_PI for x in (gs.latitudes, gt.latitudes))
     ctx.obligation(f'hypotheses of latWeights_conservative hold for {ss}->{ts}', 'hypothesis', lat_ok,
                    'latitudes strictly increasing inside [-pi/2, pi/2]')
@@ -442,13 +481,21 @@ def run(ctx: common.Ctx):
   #         theorems (row sums = target widths, column sums = source widths) hold exactly
   qlines, qmeta = [], []
   P = Fraction(TWO_PI)
-  for (ss, ts, tag, gs, gt, geo, regs) in pairs[:ctx.n(6, 30)]:
-    if geo.wlon_s.max() + geo.wlon_t.max() > TWO_PI / 2 * (1 - 1e-9):
-      continue      # borderline 4 <-> 4 longitudes: width_s + width_t = period/2 up to rounding
+  n_exact_min = 5
+  for (ss, ts, tag, gs, gt, geo, regs) in pairs[:ctx.n(11, 30)]:
+    # exactly the domain of lonWeights_conservative_of_offset_points, decided in rational arithmetic on the
+    # doubles (4 <-> 4 longitudes: gap_s + gap_t = period/2 up to rounding, on either side)
+    exact_applies = theorem_applies(gs.longitudes, gt.longitudes, exact=True)
+    ctx.dist[f'exact:lonWeights_conservative_of_offset_points applies={exact_applies}'] += 1
+    if not exact_applies:
+      continue
     qlines.append(f'regrid Q lonov {qstr(P)} {qvec(map(Fraction, gt.longitudes))} {qvec(map(Fraction, gs.longitudes))}')
     qlines.append(f'regrid Q lonbounds {qstr(P)} {qvec(map(Fraction, gt.longitudes))}')
     qlines.append(f'regrid Q lonbounds {qstr(P)} {qvec(map(Fraction, gs.longitudes))}')
     qmeta.append((ss, ts))
+  if n_exact_min and len(qmeta) < n_exact_min:
+    ctx.obligation('exact longitude overlap sums: enough pairs inside the theorem domain', 'hypothesis', False,
+                   f'only {len(qmeta)} grid pairs satisfy the hypotheses exactly')
   qouts = ctx.model(qlines)
   for i, (ss, ts) in enumerate(qmeta):
     ov, bt, bs = (unqmat(x) for x in qouts[3 * i:3 * i + 3])
@@ -458,8 +505,8 @@ def run(ctx: common.Ctx):
           and sum(wt) == P and sum(ws) == P and all(v >= 0 for r in ov for v in r))
     ctx.traces += 1
     ctx.obligation(f'exact longitude overlap sums {ss}->{ts}', 'hypothesis', ok,
-                   'model at Rat on the float coordinates of the real grids: rows sum to target widths, '
-                   'columns to source widths, widths to the period')
+                   'model at Rat on the float coordinates of the real grids (offset grids included: % period '
+                   'rotates the vector): rows sum to target widths, columns to source widths, widths to the period')
 
   # ================================================================ probes on the real code
   for (ss, ts, tag, gs, gt, geo, regs) in pairs:
@@ -468,7 +515,14 @@ def run(ctx: common.Ctx):
   for (hc, sig, sp, f, out, tag) in hybrid_cases:
     probe_vertical(ctx, jnp, vi, hc, sig, sp, f, out, tag)
   probe_vertical_raw(ctx, jnp, vi)
-  domain_witness(ctx, hi)
+  probe_wide_cells(ctx, jnp, hi, sh)
+  ctx.notes.append('gating: weights-oracle, overlap-based bounds, conservation and the NaN placement probes are '
+                   'asserted on pairs with width_s + width_t <= period/2 for all cells and circular gaps below '
+                   'period/2 (a superset of the domain of lonWeights_conservative_of_offset_points, offsets '
+                   'included); outside it only non-negativity, unit row sums of finite rows and global bounds are '
+                   'asserted, and a lost integral is reported as the recorded finding; the exact (Rat) check of '
+                   'the theorem conclusions runs on exactly the pairs whose doubles satisfy the hypotheses '
+                   '(4 <-> 4 longitudes fall on either side of gap_s + gap_t = period/2 by rounding)')
 
   if not ctx.quick:
     ctx.leanchecker(['DinoProofs.Properties.C16'])
@@ -573,10 +627,13 @@ def probe_pair(ctx, jnp, hi, ss, ts, tag, gs, gt, geo, regs):
         else:
           ctx.expect(out[b].max() <= f[b].max() + 1e-11 and out[b].min() >= f[b].min() - 1e-11, 'bounds',
                      f'output outside the range of the inputs (skipna={skip})', inp)
+        it, is_ = (geo.area_t * out[b]).sum(), (geo.area_s * f[b]).sum()
+        conserved = bool(abs(it - is_) < 1e-11 * (geo.area_s * np.abs(f[b])).sum())
         if geo.lon_domain:
-          it, is_ = (geo.area_t * out[b]).sum(), (geo.area_s * f[b]).sum()
-          ctx.expect(abs(it - is_) < 1e-11 * (geo.area_s * np.abs(f[b])).sum(), 'conservation',
+          ctx.expect(conserved, 'conservation',
                      f'area-weighted integral not conserved: target {it!r} source {is_!r} (skipna={skip})', inp)
+        else:
+          report_wide(ctx, geo, conserved, f'area-weighted integral: target {it!r} source {is_!r} (skipna={skip})', inp)
     ctx.expect(abs(geo.area_s.sum() - 4 * np.pi) < 1e-11 and abs(geo.area_t.sum() - 4 * np.pi) < 1e-11, 'oracle-area',
                'oracle cells do not tile the sphere', inp0)
 
@@ -609,11 +666,17 @@ def probe_vectors(ctx, jnp, hi):
       x = rng.standard_normal(ns)
       ctx.expect(abs((geo.wlat_t * (tw @ x)).sum() - (geo.wlat_s * x).sum()) < 1e-11 * np.abs(x).sum(),
                  'conservation-lat', 'sin-latitude-weighted integral not conserved', dict(inp, x=x.tolist()))
+      with np.errstate(all='ignore'):
+        lhs, rhs = (geo.wlon_t * (lw @ x)).sum(), (geo.wlon_s * x).sum()
+      conserved = bool(abs(lhs - rhs) < 1e-11 * np.abs(x).sum() * TWO_PI)       # False when lw has NaN rows
       if geo.lon_domain:
         ctx.expect(np.abs(lw - geo.lon_w).max() < 1e-10, 'lon-weights-oracle',
                    'longitude weights differ from arc overlap/target cell width', inp)
-        ctx.expect(abs((geo.wlon_t * (lw @ x)).sum() - (geo.wlon_s * x).sum()) < 1e-11 * np.abs(x).sum() * TWO_PI,
-                   'conservation-lon', 'longitude-width-weighted integral not conserved', dict(inp, x=x.tolist()))
+        ctx.expect(conserved, 'conservation-lon', 'longitude-width-weighted integral not conserved',
+                   dict(inp, x=x.tolist()))
+      else:
+        report_wide(ctx, geo, conserved, f'longitude-width-weighted integral: target {lhs!r} source {rhs!r}',
+                    dict(inp, x=x.tolist()))
 
 
 def vertical_checks(ctx, w, sb, tb, x, out, inp, key):
@@ -694,17 +757,47 @@ def probe_vertical_raw(ctx, jnp, vi):
       vertical_checks(ctx, w, sb, tb, x, out, inp, 'vertical:raw')
 
 
-def domain_witness(ctx, hi):
-  """Outside the domain: 3 -> 4 equispaced longitudes; every cell is narrower than period/2 (the
-  precondition stated in `_periodic_overlap`) but width_s + width_t > period/2."""
-  s = np.linspace(0, TWO_PI, 3, endpoint=False)
-  t = np.linspace(0, TWO_PI, 4, endpoint=False)
-  ov = np.asarray(hi._longitude_overlap(t, s))
-  row = ov.sum(1) / (TWO_PI / 4)
-  col = ov.sum(0) / (TWO_PI / 3)
-  deficit = bool(row.min() < 0.99 or col.min() < 0.99)
-  ctx.dist[f'domain-witness:3->4 longitudes:overlap-deficit={deficit}'] += 1
-  ctx.notes.append('domain witness (not a verdict): _longitude_overlap for 3 -> 4 equispaced longitudes: '
-                   f'row sums / target width = {np.round(row, 6).tolist()}, column sums / source width = '
-                   f'{np.round(col, 6).tolist()} (1 everywhere would be conservative); cells are narrower than '
-                   'period/2 but width_s + width_t > period/2')
+def report_wide(ctx, geo, conserved, what, inp):
+  """A pair outside the probed domain: conservation is not proved; a failure of the real code there is the
+  recorded finding `lon-conservation-wide-cells` — reported only where the hypothesis `gap_s + gap_t <= period/2`
+  of the theorem fails (inside it a failure stays an ordinary violation)."""
+  ctx.dist[f'outside-domain:conserved={conserved}'] += 1
+  if conserved:
+    return
+  if geo.thm_domain:
+    ctx.fail('conservation', 'integral not conserved inside the domain of lonWeights_conservative_of_offset_points: '
+             + what, inp)
+  else:
+    ctx.fail(WIDE_KEY, 'longitude cells too wide for _periodic_overlap (largest circular gaps of source and target '
+             'add up to more than period/2): integral not conserved: ' + what, inp)
+
+
+def probe_wide_cells(ctx, jnp, hi, sh):
+  """Outside the domain, on real Grids: 3 -> 4 (and 4 -> 3, 3 -> 5) equispaced longitudes.  Every cell is
+  narrower than period/2 (the precondition stated in `_periodic_overlap`) but gap_s + gap_t > period/2.  On
+  the pairs where the real code loses part of the integral the failure is reported (recorded finding); where
+  the hypothesis holds (>= 4 longitudes against >= 4, 3 against >= 6) conservation is asserted as usual."""
+  for (ns, nt) in [(3, 4), (4, 3), (3, 6), (3, 5), (6, 3), (2, 4), (1, 4)][:ctx.n(3, 7)]:
+    gs = sh.Grid(longitude_nodes=ns, latitude_nodes=2, latitude_spacing='gauss')
+    gt = sh.Grid(longitude_nodes=nt, latitude_nodes=2, latitude_spacing='gauss')
+    geo = Geometry(gs.longitudes, gs.latitudes, gt.longitudes, gt.latitudes)
+    inp = dict(source=dict(longitude_nodes=ns, latitude_nodes=2), target=dict(longitude_nodes=nt, latitude_nodes=2))
+    ctx.case(('wide', ns, nt), nontrivial=True)
+    with ctx.impl('probe-exception', inp):
+      reg = hi.ConservativeRegridder(gs, gt)
+      lw = np.asarray(reg.lon_weights)
+      f = np.zeros(gs.nodal_shape)
+      f[0, :] = 1.0                                  # one source longitude column: zonal mean 1/ns
+      with np.errstate(all='ignore'):
+        out = np.asarray(reg(jnp.asarray(f)))
+        it, is_ = (geo.area_t * out).sum(), (geo.area_s * f).sum()
+      conserved = bool(abs(it - is_) < 1e-11 * 4 * np.pi)
+      ctx.dist[f'wide-cells:{ns}->{nt}:theorem-applies={geo.thm_domain}:conserved={conserved}'] += 1
+      what = (f'ConservativeRegridder(Grid(longitude_nodes={ns}), Grid(longitude_nodes={nt})): lon_weights = '
+              f'{np.round(lw, 6).tolist()}; zonal mean of a unit column {is_ / (4 * np.pi)!r} -> {it / (4 * np.pi)!r}')
+      if geo.lon_domain:
+        ctx.expect(conserved, 'conservation', 'area-weighted integral not conserved: ' + what, inp)
+      else:
+        report_wide(ctx, geo, conserved, what, inp)
+      if (ns, nt) == (3, 4):
+        ctx.notes.append('outside the domain (recorded finding lon-conservation-wide-cells when not conserved): ' + what)
